@@ -25,6 +25,7 @@
 package c11
 
 import (
+	"encoding/hex"
 	"fmt"
 	"math/big"
 	"math/rand"
@@ -38,6 +39,7 @@ import (
 	"github.com/cosmos/gogoproto/proto"
 
 	skywaytypes "github.com/palomachain/paloma/v2/x/skyway/types"
+	"google.golang.org/protobuf/reflect/protoreflect"
 
 	"verif/harness/fw"
 )
@@ -471,6 +473,20 @@ func runChain(c fw.Case, p params, rec *fw.Recorder) {
 	rec.Sample(map[string]any{"part": "chain", "type": tn, "scenario": p.Base, "x": claimJSON(X), "honest_run": map[string]any{
 		"att_key": keyX, "end_events": H.EndEvents, "state_keys_changed": len(H.Delta)}})
 
+	// violations are buffered and reported most telling oracle first (the recorder keeps only the
+	// first three witnesses per signature and case)
+	type pending struct {
+		rank     int
+		sig, msg string
+		wit      any
+	}
+	var pend []pending
+	defer func() {
+		sort.SliceStable(pend, func(i, j int) bool { return pend[i].rank < pend[j].rank })
+		for _, v := range pend {
+			rec.Violation(v.sig, v.msg, v.wit)
+		}
+	}()
 	pool := w.pool(X)
 	for _, fi := range fields {
 		if fi.Excl != "" {
@@ -522,32 +538,20 @@ func runChain(c fw.Case, p params, rec *fw.Recorder) {
 					"differences": diffs, "mixed_run_warnings": M.Warn, "mixed_end_events": M.EndEvents, "honest_end_events": H.EndEvents}
 			}
 			// (A) listed field => different records (on the keys the real keeper used)
-			if isListed && !caseOnly && byzVote.Accepted && byzVote.AttKey == keyX {
-				rec.Violation(sig(p.Type, fi.Proto),
-					fmt.Sprintf("%s: a vote for a claim that differs in %s (%s: %s instead of %s) is stored in the same attestation record as the honest claim (store key %s)",
-						tn, fi.Proto, listed[fi.Proto], fieldString(X2, fi), fieldString(X, fi), keyX),
-					witness("listed-field-changes-key (observed store keys)", nil))
-			}
+			vA := isListed && !caseOnly && byzVote.Accepted && byzVote.AttKey == keyX
 			// (B) pooled => the mixed run must be what the honest validators alone would get
 			dHM := diffRuns(H, M, nh, false)
-			if len(dHM) > 0 {
-				if pooled {
-					rec.Count("chain_pooled_effect_differs/"+tn+"/"+fi.Proto, 1)
-					rec.Violation(sig(p.Type, fi.Proto),
-						fmt.Sprintf("%s: honest votes (90%% power) for a claim with %s=%s were pooled with a byzantine first vote carrying %s=%s; outcome differs from what the honest validators saw: %s",
-							tn, fi.Proto, fieldString(X, fi), fi.Proto, fieldString(X2, fi), strings.Join(head(dHM, 3), "; ")),
-						witness("pooled-mixed-run-equals-honest-run", dHM))
-				} else {
-					// outside the statement (no pooling took place); kept visible in the evidence
-					rec.Count("chain_unpooled_run_differs/"+tn+"/"+fi.Proto, 1)
-					if rec.Get("chain_unpooled_sampled") == 0 {
-						rec.Count("chain_unpooled_sampled", 1)
-						rec.Sample(map[string]any{"note": "mixed run differs from honest run although the votes were NOT pooled", "w": witness("none", dHM)})
-					}
+			vB := pooled && len(dHM) > 0
+			if len(dHM) > 0 && !pooled {
+				// outside the statement (no pooling took place); kept visible in the evidence
+				rec.Count("chain_unpooled_run_differs/"+tn+"/"+fi.Proto, 1)
+				if rec.Get("chain_unpooled_sampled") == 0 {
+					rec.Count("chain_unpooled_sampled", 1)
+					rec.Sample(map[string]any{"note": "mixed run differs from honest run although the votes were NOT pooled", "w": witness("none", dHM)})
 				}
 			}
 			// (C) both individually tallied under one key => same effect
-			sAccepted := true
+			sAccepted := len(S.Votes) > 0
 			for _, sv := range S.Votes {
 				if !sv.Accepted {
 					sAccepted = false
@@ -559,18 +563,116 @@ func runChain(c fw.Case, p params, rec *fw.Recorder) {
 			} else {
 				rec.Count("chain_no_effect_difference/"+tn+"/"+fi.Proto, 1)
 			}
-			if sAccepted && len(S.Votes) > 0 && S.Votes[0].AttKey == keyX && len(dHS) > 0 {
-				// response events of the votes carry the claim hash; equal here since keys are equal
+			vC := sAccepted && S.Votes[0].AttKey == keyX && len(dHS) > 0
+			if vA {
+				rec.Count("chain_listed_same_record/"+tn+"/"+fi.Proto, 1)
+			}
+			if vB {
+				rec.Count("chain_pooled_effect_differs/"+tn+"/"+fi.Proto, 1)
+			}
+			if vC {
 				rec.Count("chain_same_key_effect_differs/"+tn+"/"+fi.Proto, 1)
-				rec.Violation(sig(p.Type, fi.Proto),
+			}
+			// one violation per pair, the most telling oracle first
+			switch {
+			case vB:
+				pend = append(pend, pending{0, sig(p.Type, fi.Proto),
+					fmt.Sprintf("%s: honest votes (90%% power) for a claim with %s=%s were pooled with a byzantine first vote carrying %s=%s (same attestation record %s); outcome differs from what the honest validators saw: %s",
+						tn, fi.Proto, fieldString(X, fi), fi.Proto, fieldString(X2, fi), trunc(keyX), strings.Join(head(dHM, 3), "; ")),
+					witness("pooled-mixed-run-equals-honest-run", dHM)})
+			case vC:
+				pend = append(pend, pending{1, sig(p.Type, fi.Proto),
 					fmt.Sprintf("%s: claims with %s=%s and %s=%s are both accepted under the same attestation key but applying them differs: %s",
 						tn, fi.Proto, fieldString(X, fi), fi.Proto, fieldString(X2, fi), strings.Join(head(dHS, 3), "; ")),
-					witness("same-key-same-effect", dHS))
+					witness("same-key-same-effect", dHS)})
+			case vA:
+				pend = append(pend, pending{2, sig(p.Type, fi.Proto),
+					fmt.Sprintf("%s: a vote for a claim that differs in %s (%s: %s instead of %s) is stored in the same attestation record as the honest claim (store key %s)",
+						tn, fi.Proto, listed[fi.Proto], fieldString(X2, fi), fieldString(X, fi), keyX),
+					witness("listed-field-changes-key (observed store keys)", nil)})
 			}
 			if !sAccepted {
 				rec.Count("chain_xprime_not_accepted_standalone/"+tn+"/"+fi.Proto, 1)
 			}
 		}
+	}
+	w.abciCrossCheck(X, H, rec)
+}
+
+// declaredAsRPCInput: is the message the request type of some method of a protobuf service
+// (looked up in the linked file descriptors)? Only used to size the case list; the chain case
+// itself asks the real MsgServiceRouter.
+func declaredAsRPCInput(typeURL string) bool {
+	name := protoreflect.FullName(strings.TrimPrefix(typeURL, "/"))
+	found, any := false, false
+	proto.HybridResolver.RangeFiles(func(fd protoreflect.FileDescriptor) bool {
+		svcs := fd.Services()
+		for i := 0; i < svcs.Len(); i++ {
+			ms := svcs.Get(i).Methods()
+			for j := 0; j < ms.Len(); j++ {
+				any = true
+				if ms.Get(j).Input().FullName() == name {
+					found = true
+					return false
+				}
+			}
+		}
+		return true
+	})
+	return found || !any
+}
+
+// abciCrossCheck replays the honest-only run H with real signed transactions in one real block at
+// the fork height (full ante chain, all begin/end-blockers) and checks that every state key H
+// predicted has exactly the predicted value. A disagreement means the fork shortcut is not faithful
+// (harness problem -> INCONCLUSIVE), it is not a verdict about the property.
+func (w *wstate) abciCrossCheck(X skywaytypes.EthereumClaim, H runOut, rec *fw.Recorder) {
+	c := w.c
+	if c.Height+1 != w.forkHeight {
+		rec.Inconclusive("abci cross-check: chain moved")
+		return
+	}
+	for _, h := range w.honest {
+		m, err := prepareVote(X, h)
+		if err == nil {
+			err = c.QueueTx(h, 0, m)
+		}
+		if err != nil {
+			rec.Inconclusive("abci cross-check: cannot build tx: " + err.Error())
+			return
+		}
+	}
+	br := c.NextBlock()
+	if br.Panic != "" || br.Err != nil {
+		rec.Inconclusive(fmt.Sprintf("abci cross-check: block failed: %s %v", br.Panic, br.Err))
+		return
+	}
+	for i, t := range br.Txs {
+		if !t.OK() {
+			rec.Inconclusive(fmt.Sprintf("abci cross-check: vote %d rejected through ABCI but accepted on the fork: %s", i, t.Log))
+			return
+		}
+	}
+	ctx := c.Ctx()
+	bad := 0
+	for k, want := range H.Delta {
+		i := strings.Index(k, "/")
+		store, keyHex := k[:i], k[i+1:]
+		kb, _ := hex.DecodeString(keyHex)
+		got := "<deleted>"
+		if v := c.KVStore(ctx, store).Get(kb); v != nil {
+			got = hex.EncodeToString(v)
+		}
+		if got != want {
+			bad++
+			if bad <= 3 {
+				rec.Inconclusive(fmt.Sprintf("abci cross-check: %s is %s after the real block, the fork run predicted %s", k, trunc(got), trunc(want)))
+			}
+		}
+		rec.Count("abci_crosscheck_keys", 1)
+	}
+	if bad == 0 {
+		rec.Count("abci_crosscheck_ok", 1)
 	}
 }
 
@@ -599,17 +701,18 @@ func run(c fw.Case, tier string, rec *fw.Recorder) {
 func cases(tier string, seed int64) []fw.Case {
 	var cs []fw.Case
 	nPure, bases, vals := 4, 12, 40
-	scen, cvals := 2, 26
+	scen, cvals := 4, 36
 	if tier == "thorough" {
 		nPure, bases, vals = 16, 40, 120
-		scen, cvals = 8, 60
+		scen, cvals = 12, 90
 	}
-	for i := 0; i < nPure; i++ {
-		cs = append(cs, fw.MkCase(fmt.Sprintf("pure-%02d", i), seed*1000003+int64(i), params{Mode: "pure", Bases: bases, Vals: vals}))
-	}
+	// chain cases first: their witnesses (real executions) are the ones kept as replay files
 	urls, _ := claimTypes()
 	for _, u := range urls {
 		n := scen
+		if !declaredAsRPCInput(u) {
+			n = 1 // the case only confirms with the real router that the type cannot be submitted
+		}
 		switch shortName(u) {
 		case "MsgSendToPalomaClaim":
 			n = scen * 2 // four handler paths
@@ -619,6 +722,9 @@ func cases(tier string, seed int64) []fw.Case {
 		for b := 0; b < n; b++ {
 			cs = append(cs, fw.MkCase(fmt.Sprintf("chain-%s-%02d", shortName(u), b), seed*7000003+int64(len(cs)), params{Mode: "chain", Type: u, Base: b, Vals: cvals}))
 		}
+	}
+	for i := 0; i < nPure; i++ {
+		cs = append(cs, fw.MkCase(fmt.Sprintf("pure-%02d", i), seed*1000003+int64(i), params{Mode: "pure", Bases: bases, Vals: vals}))
 	}
 	return cs
 }
@@ -644,7 +750,7 @@ func init() {
 		Exhaustive:  func(string) bool { return false },
 		Cases:       cases,
 		Run:         run,
-		MinCounters: []string{"pure_types", "pure_listed_key_differs", "chain_worlds", "key_model_checked", "chain_xprime_vote_accepted", "chain_base_applied/MsgSendToPalomaClaim", "chain_base_applied/MsgBatchSendToRemoteClaim", "chain_base_applied/MsgLightNodeSaleClaim"},
+		MinCounters: []string{"pure_types", "pure_listed_key_differs", "chain_worlds", "key_model_checked", "abci_crosscheck_ok", "chain_xprime_vote_accepted", "chain_base_applied/MsgSendToPalomaClaim", "chain_base_applied/MsgBatchSendToRemoteClaim", "chain_base_applied/MsgLightNodeSaleClaim"},
 		TimeoutS:    1500,
 	})
 }
